@@ -9,7 +9,7 @@ from harness.props.vbsutil import read_all, render_end
 
 PROP = 'C19'
 RULE = ("writer-produced IPM files (PDS via PDSxxxx keys, directly supplied carriers in canonical AND non-canonical tag "
-        "order, ICC data, typed fields, random element subsets) and arbitrary-byte parameter files x ordered pairs of "
+        "order, ICC data, typed fields, random element subsets) and arbitrary-byte parameter files (also records with x'40' / x'00' runs covering whole blocks; ICC values of 127..250 bytes shaped like nested templates) x ordered pairs of "
         "{latin_1, cp500, cp037} x {vbs,1014}^2 through mci_ipm_encode, mideu convert (real files), mci_ipm_param_encode and "
         "paramconv: records of the output decoded under B must equal the input's decoded under A (count, order, ICC bytes), "
         "and converting back must reproduce the original file byte for byte. Non-trivial = A != B or the formats differ; "
@@ -225,6 +225,15 @@ def explore(run, tier):
         for inb, outb in ((0, 0), (0, 1), (1, 0), (1, 1)):
             cases.append({'kind': 'param', 'tool': 'param', 'a': 'latin_1', 'b': 'cp500', 'inb': inb, 'outb': outb,
                           'recs': ['01', rec, '02']})
+    # records with long runs of x'40' (the EBCDIC blank, '@' in latin-1, and the 1014 filler byte): blank-padded rows
+    # that cover one or more whole 1012-byte payload blocks are DATA, wherever the block boundaries fall
+    for recs in (['c1', '40' * 2600, 'c2'], ['40' * 1008], ['40' * 1004, '40' * 1012, 'f1'], ['40' * 3000, '4040'],
+                 ['c1c2', '40' * 2021, '40' * 5], ['00' * 2600, 'c1']):
+        for inb, outb in ((0, 1), (1, 0), (1, 1)):
+            cases.append({'kind': 'param', 'tool': 'param', 'a': 'cp500', 'b': 'latin_1', 'inb': inb, 'outb': outb,
+                          'recs': recs})
+        cases.append({'kind': 'param', 'tool': 'paramconv', 'a': 'cp500', 'b': 'latin_1', 'inb': 1, 'outb': 1, 'recs': recs})
+        cases.append({'kind': 'param', 'tool': 'paramconv', 'a': 'latin_1', 'b': 'cp500', 'inb': 1, 'outb': 1, 'recs': recs})
     # command entry points with the DEFAULT output name, on input files called x.bin, x.out, x (the second leg of a
     # round trip done with default names converts a file that is itself called *.out)
     for fname in ('params.bin', 'params.out', 'params', 'a.b.out'):
